@@ -1438,3 +1438,33 @@ SPEC_DECISIONS = ["D1 precedence of simultaneous error conditions", "D2 recognis
                   "D12 deduplication only where libcoap does it: a duplicate (peer, message id) of a Confirmable request handed to "
                   "the proxy handler is acknowledged again and not processed again",
                   "D13 a delayed invocation whose handler sets no response code is out of scope"]
+
+
+# ---- T1Y: the numerals of this property's models are tied to the current tree.  extract/consts2*.c + a source scan
+# rewrite lean/CoapVerif/Generated/Consts2.lean on every check; Props/C10Consts.lean proves `<model numeral / model
+# function> = Generated.C2.<name>` (design/T1.md).  A changed macro / enum value / case label / literal breaks one of
+# these named obligations.
+LEAN_MODULES = list(LEAN_MODULES) + ["CoapVerif.Props.C10Consts"]
+REQUIRED_THEOREMS = list(REQUIRED_THEOREMS) + [
+    "resourceFlags_match_code",
+    "messageTypes_match_code",
+    "respType_matches_code",
+    "filterGet_matches_code",
+    "filterSlots_match_code",
+    "hopBlock_matches_code",
+    "pathBlock_matches_code",
+    "selectStage_matches_code",
+    "checkStage_matches_code",
+    "obsStage_matches_code",
+    "dispatch_numerals_match_code",
+    "blockMode_matches_code",
+    "tickModulus_matches_code",
+    "delayOf_matches_code",
+]
+TRUSTED_BASE = list(TRUSTED_BASE) + ["T1 extractors extract/consts2.c, consts2_net.c, consts2_opt.c, consts2_res.c and the source scan vlib/tables.py scan_consts2 / scan_oscore_protect (Generated/Consts2.lean)"]
+_t1x_prev_extract = globals().get("extract")
+
+
+def extract(ctx):
+    from vlib import tables
+    return (_t1x_prev_extract(ctx) if _t1x_prev_extract else []) + tables.extract_consts2()
